@@ -67,6 +67,10 @@ class ToSemverStr(FnSpec):
     def result(self, cx, a):
         return SStr(sv_text(*[x.t for x in a.ver.items]))
 
+    def native_plan(self, m, o):
+        v = [m.get(k, 0) for k in ("va", "vb", "vc")]
+        return {"fn": "to_semver_str", "args": [{"__tuple__": v}]}
+
 
 class FromSemverStr(FnSpec):
     file = "plugin/types.py"
@@ -94,6 +98,10 @@ class FromSemverStr(FnSpec):
         t = a.ver.t
         return STuple(tuple(SInt(FSV[i](t)) for i in range(3)))
 
+    def native_plan(self, m, o):
+        v = [m.get(k, 0) for k in ("va", "vb", "vc")]
+        return {"fn": "from_semver_str", "args": [".".join(str(x) for x in v)], "expect": {"__tuple__": v}}
+
 
 FSV = [z3.Function(f"semver_component_{i}", S, I) for i in range(3)]
 
@@ -115,6 +123,13 @@ class ToEpName(FnSpec):
 
     def raises(self, cx, a):
         return {"TypeError": z3.Not(EP_OK(z3.Concat(a.p_name.t, SEP, sv_text(*a.v))))}
+
+    def native_plan(self, m, o):
+        v = [m.get(k, 0) for k in ("va", "vb", "vc")]
+        name = next((val for k, val in m.items() if k.startswith("plugin_name")), None)
+        if not isinstance(name, str):
+            return None
+        return {"fn": "to_ep_name", "args": [name, {"__tuple__": v}]}
 
     def ensures(self, cx, a, res):
         t = str_term(res)
@@ -143,6 +158,13 @@ class FromEpNameBody(FnSpec):
 
     def raises(self, cx, a):
         return {}
+
+    def native_plan(self, m, o):
+        v = [m.get(k, 0) for k in ("va", "vb", "vc")]
+        name = m.get("plugin_name")
+        if not isinstance(name, str):
+            return None
+        return {"fn": "from_ep_name", "args": [name + "__" + ".".join(str(x) for x in v)], "expect": {"__tuple__": [name, {"__tuple__": v}]}}
 
     def ensures(self, cx, a, res):
         items = res.items if isinstance(res, STuple) else (list(res) if isinstance(res, (tuple, list)) else None)
